@@ -5,7 +5,8 @@ From Coq Require Import List NArith ZArith Bool.
 From RPFT Require Import Base.Sexp Base.PyStr Base.Result Base.Json Gen.Tables Exp.Load.
 Import ListNotations.
 
-(* the Python builtin `type`, which ContactFieldReference.render writes (it is not JSON) *)
+(* the Python builtin `type`, which ContactFieldReference.render wrote before the repair
+   "fix: a typed contact field reference renders its own type" (it is not JSON) *)
 Definition builtin_type : json :=
   JRaw [60; 99; 108; 97; 115; 115; 32; 39; 116; 121; 112; 101; 39; 62]%N.   (* "<class 'type'>" *)
 
@@ -17,9 +18,13 @@ Definition render_exit (e : exit_t) : json :=
 Definition render_flowref (f : flowref_t) : json :=
   JObj [(k_name, fr_name f); (k_uuid, fr_uuid f)].
 
+(* `render_dict["type"] = self.type` in the repaired tree, `= type` (the builtin) before: the
+   regenerated probe [fieldref_renders_own_type] (Gen/Tables.v) tells which code is under check *)
 Definition render_fieldref (f : fieldref_t) : json :=
   JObj ([(k_name, cf_name f); (k_key, cf_key f)]
-        ++ (if truthy (cf_type f) then [(k_type, builtin_type)] else [])).
+        ++ (if truthy (cf_type f)
+            then [(k_type, if fieldref_renders_own_type then cf_type f else builtin_type)]
+            else [])).
 
 Definition render_fieldref_label (f : fieldref_t) : json :=
   JObj [(k_label, cf_name f); (k_key, cf_key f)].
@@ -125,10 +130,23 @@ Definition render_router (r : router_t) : res json :=
   end.
 
 (* ---------------------------------------------------------------- nodes.py *)
-(* get_exits(): the default exit of a basic node, the categories' exits of a router node *)
+(* `if category.get_exit() not in exits: exits.append(...)`: each Exit object once, at the place
+   of its first category.  Categories of a loaded router get their Exit from the node's exit list
+   by uuid (find_exit: the first with that uuid), so "the same object" is "the same uuid". *)
+Fixpoint uniq_exits (l : list exit_t) : list exit_t :=
+  match l with
+  | [] => []
+  | e :: r => e :: filter (fun x => negb (json_eqb (e_uuid x) (e_uuid e))) (uniq_exits r)
+  end.
+
+(* get_exits(): the default exit of a basic node, the categories' exits of a router node — one
+   entry per category before the repair "fix: an exit shared by several categories of a router is
+   rendered once", each exit once since.  The regenerated probe [router_lists_shared_exit_once]
+   (Gen/Tables.v) tells which code is under check. *)
 Definition exits_of (n : node_t) : list exit_t :=
   match n_router n with
-  | Some r => map c_exit (categories_of r)
+  | Some r => let l := map c_exit (categories_of r) in
+              if router_lists_shared_exit_once then uniq_exits l else l
   | None => match n_default_exit n with Some e => [e] | None => [] end
   end.
 
